@@ -71,6 +71,14 @@ type UEParams struct {
 	CauseVal int `json:"cause_val,omitempty"` // 5GSM cause value when the cause IE is present (default #50)
 }
 
+// Cred is one subscriber's authentication data as it would be configured (hex strings; OPC may be
+// empty for an OP-only subscription, OP may be empty when OPC is given).
+type Cred struct {
+	K   string `json:"k"`
+	OPC string `json:"opc"`
+	OP  string `json:"op"`
+}
+
 // AMFParams are association-level choices of the network.
 type AMFParams struct {
 	Name     string `json:"name"`
@@ -113,6 +121,9 @@ type Scenario struct {
 	// Subscribers, if set, lists the SUPI digits of the registering UEs explicitly (procedure-level
 	// runs; a subscriber may belong to another PLMN than the serving one: a roamer).
 	Subscribers []string `json:"subscribers,omitempty"`
+	// SubCreds, if set, gives subscriber i its own credentials (index-aligned with Subscribers);
+	// an empty K means the configured ones. Several operators' subscribers in one process.
+	SubCreds []Cred `json:"sub_creds,omitempty"`
 	// Quiet suppresses hex dumps in the event log (large population runs).
 	Quiet bool `json:"quiet,omitempty"`
 	// Rig specific free-form parameters (PS / LS rigs).
